@@ -6,11 +6,15 @@ A case descriptor ``d`` is a superset of pvm.gen.spec's (spec, table):
   d["spec"]     spec dict of pvm.gen.spec plus, per field: "parsers",
                 "drop_invalid_rows", dtype "faulty_int" / None, custom checks
                 {"kind":"custom","shape":..,"pred":..,"opts":{..}}; per frame:
-                "checks", "parsers"
+                "checks", "parsers" ({"fn": name in c06_faults.PD_PARSER_FRAME}),
+                "multiindex" (options of pa.MultiIndex when "index" has more
+                than one level: coerce / strict / ordered / unique)
   d["table"]    table dict of pvm.gen.spec; labels may be non-strings
                 (tuples encoded as {"tuple":[..]}), cells may be unhashable
                 ({"list":[..]})
-  d["call"]     {"lazy","head","tail","sample","inplace","depth","arg","lazyframe"}
+  d["call"]     {"lazy","head","tail","sample","inplace","depth","arg","lazyframe",
+                 "component": i -> validate with the i-th Column of the
+                 schema alone (Column.validate(dataframe))}
   d["tags"]     which "unusual but legal" transformations were applied
 
 Part A cases come from pvm.gen.spec.gen_case + hostile transformations; part B
@@ -82,7 +86,8 @@ def _pd_parsers(pa, parsers, faults, frame=False):
     out = []
     for p in parsers or []:
         if frame:
-            out.append(pa.Parser(faults.wrap("parser_frame", lambda df: df)))
+            out.append(pa.Parser(faults.wrap(
+                "parser_frame", CF.PD_PARSER_FRAME[p.get("fn", "identity")])))
         elif p.get("element_wise"):
             out.append(pa.Parser(faults.wrap("parser_elem",
                                              CF.PD_PARSER_ELEM["identity"]),
@@ -95,6 +100,8 @@ def _pd_parsers(pa, parsers, faults, frame=False):
 def _pd_dtype(d):
     if d == "faulty_int":
         return CF.pandas_faulty_int()()
+    if d == "faulty_int_inplace":
+        return CF.pandas_faulty_int_inplace()()
     return B.pd_dtype(d)
 
 
@@ -119,7 +126,10 @@ def pandas_schema(spec, faults):
         levels = [pa.Index(_pd_dtype(fs["dtype"]), name=fs["name"],
                            **_pd_field_kwargs(pa, fs, faults))
                   for fs in spec["index"]]
-        index = levels[0] if len(levels) == 1 else pa.MultiIndex(levels)
+        mi = spec.get("multiindex") or {}
+        index = levels[0] if len(levels) == 1 else pa.MultiIndex(
+            levels, **{k: mi[k] for k in ("coerce", "strict", "ordered", "unique")
+                       if k in mi})
     if spec["kind"] == "series":
         fs = spec["field"]
         kw = _pd_field_kwargs(pa, fs, faults)
@@ -258,6 +268,9 @@ def build(d, faults):
     if d["backend"] == "pandas":
         schema = pandas_schema(spec, faults)
         obj = pandas_table(spec, table)
+        if call.get("component") is not None:
+            # a Column used on its own: Column.validate(dataframe)
+            schema = list(schema.columns.values())[call["component"]]
     else:
         schema = polars_schema(spec, faults)
         obj = polars_table(table, lazy=call.get("lazyframe", False))
@@ -341,8 +354,9 @@ def hostile(rng, backend):
             if T(0.5):
                 fs["coerce"] = True
         if spec.get("index") and T(0.5):
+            every = T(0.5)      # else: on some levels of a MultiIndex only
             for fs in spec["index"]:
-                fs["coerce"] = True
+                fs["coerce"] = every or T(0.5)
         tags.append("coerce")
     if T(0.12) and fields:
         fs = rng.choice(fields)
@@ -489,13 +503,16 @@ def hostile(rng, backend):
 
 
 # ------------------------------------------------------------------ part B gen
-PREDS = ["true", "true", "notnull", "short", "never", "scalar_true", "scalar_false"]
+PREDS = ["true", "true", "notnull", "short", "never", "scalar_true", "scalar_false",
+         "mut_true"]
+UNCOERCIBLE = ["x", "", "1.5x", None, "nan?"]
 
 
 def _custom(rng, shape, polars=False):
     if shape in ("elem", "frame_row", "groupby_col", "groupby_fn"):
         pred = rng.choice(["true", "true", "notnull", "never"] +
-                          ([] if polars else ["short"]))
+                          ([] if polars else ["short"]) +
+                          (["mut_true"] if shape.startswith("groupby") else []))
     elif polars:
         pred = rng.choice(["true", "true", "notnull", "never", "scalar_true",
                            "scalar_false"])
@@ -515,6 +532,54 @@ def _custom(rng, shape, polars=False):
     return c
 
 
+def _multiindex(rng, spec, table, nrows, tags):
+    """A MultiIndex schema (2-3 levels): coerce is requested per level and /
+    or on the MultiIndex itself, levels carry user callbacks, level data is
+    conforming, coercible text or (sometimes) not coercible at all."""
+    nlev = rng.choice([2, 2, 3])
+    named = rng.random() < 0.85
+    levels, tlevels = [], []
+    for j in range(nlev):
+        dtype = rng.choice(["int64", "int64", "str", "faulty_int"])
+        base = "int64" if dtype.startswith("faulty_int") else dtype
+        ix = G.gen_field(rng, f"i{j}" if named else None, base, p_checks=0)
+        ix["dtype"] = dtype
+        ix["unique"] = False
+        ix["nullable"] = False
+        ix["coerce"] = rng.random() < 0.45
+        ix["checks"] = [_custom(rng, rng.choice(["vec", "elem"]))
+                        for _ in range(rng.choice([0, 1, 1]))]
+        if base == "int64":
+            vals, phys = [rng.choice([0, 1, 2, 7]) for _ in range(nrows)], "int64"
+            if j == 0:
+                vals = list(range(nrows))
+            if rng.random() < 0.4:
+                # text that only a coercing level / MultiIndex accepts
+                vals, phys = [str(v) for v in vals], "object"
+                if rng.random() < 0.3:
+                    vals[rng.randrange(nrows)] = rng.choice(
+                        [u for u in UNCOERCIBLE if u is not None])
+        else:
+            vals, phys = [rng.choice(["k", "m", "zz"]) for _ in range(nrows)], "object"
+        levels.append(ix)
+        tlevels.append({"name": ix["name"], "phys": phys, "values": vals})
+    spec["index"] = levels
+    spec["multiindex"] = {"coerce": rng.random() < 0.25,
+                          "strict": rng.random() < 0.3,
+                          "ordered": rng.random() < 0.75}
+    table["index"] = {"levels": tlevels}
+    tags.append("multiindex")
+    n_coerce = sum(bool(ix["coerce"]) for ix in levels)
+    if spec["multiindex"]["coerce"]:
+        tags.append("multiindex:coerce=True")
+    elif 0 < n_coerce < nlev:
+        tags.append("multiindex:coerce-on-some-levels")
+    elif n_coerce == nlev:
+        tags.append("multiindex:coerce-on-every-level")
+    else:
+        tags.append("multiindex:no-coerce")
+
+
 def callbacks_case(rng, backend):
     """A small schema dense in user callbacks (part B)."""
     polars = backend == "polars"
@@ -529,11 +594,13 @@ def callbacks_case(rng, backend):
     table = {"columns": [], "index": None}
     series = (not polars) and rng.random() < 0.15
     use_regex = rng.random() < 0.3
+    tags = ["callbacks"]
     shapes_col = ["vec", "vec", "elem"] + ([] if polars else
                                            ["groupby_col", "groupby_fn"])
     for i, nme in enumerate(names):
-        dtype = rng.choice(["int64", "float64", "str", "faulty_int", "faulty_int"])
-        base = "int64" if dtype == "faulty_int" else dtype
+        dtype = rng.choice(["int64", "float64", "str", "faulty_int", "faulty_int"]
+                           + ([] if polars else ["faulty_int_inplace"]))
+        base = "int64" if dtype.startswith("faulty_int") else dtype
         fs = G.gen_field(rng, nme, base, p_checks=0.3, max_checks=1,
                          neutral=polars, allow_unique=True)
         fs["coerce"] = rng.random() < 0.4
@@ -553,6 +620,13 @@ def callbacks_case(rng, backend):
         if fs["coerce"] and rng.random() < 0.5 and base in ("int64", "float64") \
                 and not any(v is None for v in vals):
             vals, phys = [str(v) for v in vals], "object"
+            if rng.random() < 0.45:
+                # cells no coercion can convert: coerce() fails and pandera
+                # computes the failure cases value by value (coerce_value)
+                for _ in range(rng.randint(1, 2)):
+                    vals[rng.randrange(nrows)] = rng.choice(UNCOERCIBLE)
+                if "uncoercible-cells" not in tags:
+                    tags.append("uncoercible-cells")
         label = nme
         if use_regex and i == 0:
             # regex column: matched labels r_a, r_bb validated one after another
@@ -577,8 +651,9 @@ def callbacks_case(rng, backend):
         shape = "frame" if polars else rng.choice(["frame", "frame", "frame_row"])
         spec["checks"].append(_custom(rng, shape, polars))
     if not polars and rng.random() < 0.25:
-        spec["parsers"] = [{"fn": "identity"}]
-    if not polars and rng.random() < 0.3:
+        spec["parsers"] = [{"fn": rng.choice(list(CF.PD_PARSER_FRAME))}]
+    r = rng.random()
+    if not polars and r < 0.2:
         ix = G.gen_field(rng, rng.choice(["i0", None]), "int64", p_checks=0)
         ix["unique"] = False
         ix["nullable"] = False
@@ -586,10 +661,19 @@ def callbacks_case(rng, backend):
         spec["index"] = [ix]
         table["index"] = {"levels": [{"name": ix["name"], "phys": "int64",
                                       "values": list(range(nrows))}]}
+    elif not polars and r < 0.42:
+        _multiindex(rng, spec, table, nrows, tags)
     spec["coerce"] = rng.random() < 0.15
+    if rng.random() < 0.08:
+        # dataframe-wide dtype: every column component is validated with
+        # its dtype (and coerce) temporarily overridden
+        spec["dtype"] = rng.choice(
+            ["int64", "float64", "str"] +
+            ([] if polars else ["faulty_int", "faulty_int_inplace"]))
+        spec["coerce"] = rng.random() < 0.6
+        tags.append("frame-dtype")
     spec["strict"] = rng.choice([False, False, True, "filter"])
     call = {"lazy": rng.random() < 0.55}
-    tags = ["callbacks"]
     if rng.random() < 0.2:
         spec["drop_invalid_rows"] = True
         call["lazy"] = True
@@ -602,15 +686,26 @@ def callbacks_case(rng, backend):
         tags.append("LazyFrame")
     if rng.random() < 0.15:
         call[rng.choice(["head", "tail"])] = rng.randint(1, 3)
+    if not polars and not series and rng.random() < 0.12:
+        # schema components are schemas too: Column(...).validate(df); the
+        # first column is the regex one when there is one
+        call["component"] = rng.choice([0, 0, rng.randrange(len(names))])
+        tags.append("standalone-column")
     if series:
         fs = spec["columns"][0]
         fs["regex"] = False
         fs["checks"] = [c for c in fs["checks"]
                         if c.get("shape") not in ("groupby_col", "groupby_fn")]
         fs["name"] = rng.choice(["a", None])
+        if not fs.get("parsers") and rng.random() < 0.5:
+            # SeriesSchema.validate(inplace=False) copies on its own
+            fs["parsers"] = [{"fn": rng.choice(
+                ["inplace_first", "inplace_reverse", "inplace_clip"]),
+                "element_wise": False}]
         col = table["columns"][0]
         col["name"] = fs["name"]
         spec = {"kind": "series", "field": fs, "index": spec["index"],
+                "multiindex": spec.get("multiindex"),
                 "drop_invalid_rows": spec["drop_invalid_rows"]}
         table = {"columns": [col], "index": table["index"]}
         tags.append("series")
